@@ -1,5 +1,11 @@
-(* C10 — cancelling or timing out a receive never loses data.  Statements only; proofs in Proofs/C10_*.v *)
-From EN Require Import Lib.Bytes Conc.SockReader Proofs.C10_refute.
+(* C10 -- cancelling or timing out a receive never loses data.  Statements only; proofs in Proofs/C10_*.v.
+   Model: Conc/SockReader.v (StreamReaderBufferedProtocol + the asyncio wake-up rule + explicit ready queue);
+   [step false] is the code as it is in /repo, [step true] the code with meta/fixes/C10_F4.diff applied.
+   Vocabulary (Conc/SockReaderSpec.v):  parked s = extdata s ++ ibuf s  (bytes in the caller's buffer awaiting the
+   wake-up, then the protocol's buffer);  received os / accepted ls os = the bytes of all receives that returned /
+   of all read events, read off the observations. *)
+From EN Require Import Lib.Bytes Conc.SockReader Conc.SockReaderSpec
+                       Proofs.C10_refute Proofs.C10_inv Proofs.C10_obs.
 
 (* F4 (defect of the unchanged tree): recv_into(8); read event "hello"; task.cancel(); next iteration; wake-up
    (CancelledError); read event " world"; recv(64) returns " world" -- "hello" is gone, no error is reported. *)
@@ -8,3 +14,64 @@ Theorem no_loss_refuted :
              lost_exc s = None /\ delivered s = hello ++ world /\ received os = world /\ parked s = [] /\ tpc s = PIdle.
 Proof. exact no_loss_refuted_proof. Qed.
 Print Assumptions no_loss_refuted.
+
+(* the same with the cancellation requested before the read event of the same iteration *)
+Theorem no_loss_refuted_cancel_first :
+  exists ls, let '(s, os) := exec false init ls in
+             lost_exc s = None /\ delivered s = hello ++ world /\ received os = world /\ parked s = [] /\ tpc s = PIdle.
+Proof. exact no_loss_refuted_cancel_first_proof. Qed.
+Print Assumptions no_loss_refuted_cancel_first.
+
+(* The history fields are not free ghost state: they are what the observations say. *)
+Theorem ghosts_are_observations : forall fixed ls,
+  returned (run_labels fixed ls) = received (snd (exec fixed init ls)) /\
+  delivered (run_labels fixed ls) = accepted ls (snd (exec fixed init ls)).
+Proof. exact ghosts_are_observations_proof. Qed.
+Print Assumptions ghosts_are_observations.
+
+(* no_loss, repaired protocol: after EVERY label sequence (all orders of read events, EOF, connection loss,
+   cancellation requests, wake-ups and loop iterations, recv and recv_into), the bytes returned so far followed by the
+   bytes still parked are exactly the bytes delivered, in order; the only exception is a tail of the stream dropped by
+   connection_lost(), and then the connection error is set (every later receive raises it, see below). *)
+Theorem no_loss : forall ls,
+  let s := run_labels true ls in
+  exists tail, returned s ++ parked s ++ tail = delivered s /\ (tail <> [] -> lost_exc s <> None).
+Proof. exact no_loss_fixed_proof. Qed.
+Print Assumptions no_loss.
+
+(* no_loss for the code as it is, largest sub-space 1: label sequences in which no step is racy, i.e. no cancellation
+   is requested while the caller's buffer holds bytes its task has not been woken up for, and no read event happens
+   while a cancelled recv_into has not been woken up yet (cancellation and read event never fall between the same
+   suspension and wake-up of a recv_into). *)
+Theorem no_loss_race_free : forall ls,
+  race_free init ls ->
+  let s := run_labels false ls in
+  exists tail, returned s ++ parked s ++ tail = delivered s /\ (tail <> [] -> lost_exc s <> None).
+Proof. exact no_loss_race_free_proof. Qed.
+Print Assumptions no_loss_race_free.
+
+(* no_loss for the code as it is, sub-space 2: the recv() path (no recv_into at all), any order of everything else. *)
+Theorem no_loss_recv_path : forall ls,
+  forallb (fun l => negb (has_recv_into l)) ls = true ->
+  let s := run_labels false ls in
+  exists tail, returned s ++ parked s ++ tail = delivered s /\ (tail <> [] -> lost_exc s <> None).
+Proof. exact no_loss_recv_path_proof. Qed.
+Print Assumptions no_loss_recv_path.
+
+(* a dropped tail is never silent: the error stays set and every receive issued afterwards raises it *)
+Theorem error_is_sticky : forall fixed ls s e,
+  lost_exc s = Some e -> lost s = true -> lost_exc (fst (exec fixed s ls)) = Some e.
+Proof. exact exec_lost_exc_sticky. Qed.
+Print Assumptions error_is_sticky.
+
+Theorem error_fails_receives : forall s o e, lost_exc s = Some e -> call s o = (s, ORes (RError e)).
+Proof. exact error_fails_receives_proof. Qed.
+Print Assumptions error_fails_receives.
+
+(* non-vacuity: race-free sequences exist that contain recv_into, a cancellation and data *)
+Example race_free_example :
+  race_free init [LRecvInto 4; LCancel; LTurn; LWake; LData hello; LRecvInto 4; LData world; LTurn; LWake].
+Proof. vm_compute. repeat split. Qed.
+(* the F4 witness is exactly not race-free *)
+Example witness_is_racy : ~ race_free init witness_data_cancel.
+Proof. vm_compute. intros (_ & _ & H & _). discriminate. Qed.
